@@ -176,6 +176,10 @@ func runCheck(prop, tier string, verbose bool) int {
 		reps = append(reps, &FuncReport{Key: fmt.Sprintf("determinism discipline over %d repository functions (go/ssa scan)", dr.Functions), Obls: dr.Obls, Header: basePrelude})
 		cfg.NotDecided = append(cfg.NotDecided, dr.Notes...)
 	}
+	if cfg.EventForwarding {
+		er := runEventForwarding(s, prop)
+		reps = append(reps, &FuncReport{Key: fmt.Sprintf("event forwarding discipline over %d dynamic message-handler invocations (go/ssa def-use scan)", er.Functions), Obls: er.Obls, Header: basePrelude})
+	}
 	dir := filepath.Join(outDir(), "smt", prop)
 	os.RemoveAll(dir)
 	os.MkdirAll(dir, 0o755)
